@@ -18,6 +18,7 @@ import (
 	"math/rand"
 	"net/http"
 	"net/url"
+	"strconv"
 	"strings"
 
 	"github.com/gobwas/pool/pbufio"
@@ -157,6 +158,24 @@ func init() {
 			}
 			scribble()
 			return fmt.Sprintf("%s snap=%s after=%s", classify(err), snap, msgsStr(ms))
+		case "hcm":
+			// ali hcm <S|C> <opcode> <payloadhex>: a control message returned by a read helper, handed to
+			// HandleClientControlMessage / HandleServerControlMessage (which write the reply): the message the
+			// application holds is not changed by answering it
+			p := unhx(a[3])
+			p = append(make([]byte, 0, len(p)), p...)
+			op, _ := strconv.Atoi(a[2])
+			msg := wsutil.Message{OpCode: ws.OpCode(op), Payload: p}
+			snap := hx(msg.Payload)
+			var out bytes.Buffer
+			rand.Seed(9)
+			if a[1] == "C" {
+				wsutil.HandleServerControlMessage(&out, msg) // we are the client: the reply is masked
+			} else {
+				wsutil.HandleClientControlMessage(&out, msg)
+			}
+			scribble()
+			return fmt.Sprintf("snap=%s after=%s", snap, hx(msg.Payload))
 		case "wr":
 			st := side(a[2])
 			p := unhx(a[3])
@@ -326,6 +345,15 @@ func genC17(tier string, r *rng) {
 			ch := frameBytes(true, 0, ws.OpBinary, masked, bytes.Repeat([]byte{0xEE}, n+7))
 			run(fmt.Sprintf("ali rm %s %s %s", sd, hx(one), hx(ch)))
 			run(fmt.Sprintf("ali rm %s %s %s", sd, hx(frag), hx(ch)))
+		}
+		for _, op := range []int{9, 10, 8} {
+			for _, n := range []int{0, 1, 2, 16, 100, 125} {
+				pl := r.bytes(n)
+				if op == 8 && n >= 2 {
+					pl = ws.NewCloseFrameBody(1000, string(bytes.Repeat([]byte("r"), n-2)))
+				}
+				run(fmt.Sprintf("ali hcm %s %d %s", sd, op, hx(pl)))
+			}
 		}
 		for _, kind := range []string{"wm", "wt", "big", "buffered", "cwr", "mf", "mfw", "umf", "umf0", "umfu", "mfw0"} {
 			for _, n := range []int{0, 1, 7, 8, 9, 31, 100, 127, 128, 256, 1000, 1024, 4096, 5000} {
